@@ -600,3 +600,268 @@ package lnwallet
 //@   props C01
 //@   site call compactLogs$1 nth 0: assert arg(0) == ourLog && arg(1) == theirLog
 //@   site call compactLogs$1 nth 1: assert arg(0) == theirLog && arg(1) == ourLog
+//@
+//@ // ---- C05 (data flow only; validity under Bitcoin script rules is NOT decided): the second-level
+//@ // ---- transactions and sweep descriptors are assembled from the HTLC's own expiry, amount, output
+//@ // ---- index, the channel's delays and this commitment's keys
+//@ func CreateHtlcTimeoutTx
+//@   props C05
+//@   site store MsgTx.LockTime: assert value == cltvExpiry
+//@   site store TxIn.Sequence: assert value == ret(HtlcSecondLevelInputSequence)
+//@   site store TxIn.PreviousOutPoint: assert value.Hash == htlcOutput.Hash && value.Index == htlcOutput.Index
+//@   site store TxOut.Value: assert value == htlcAmt
+//@   site store TxOut.PkScript: assert value == ret(PkScript) && retn(SecondLevelHtlcScript, 1) == nil
+//@   site call HtlcSecondLevelInputSequence: assert arg(chanType) == chanType
+//@   site call NewMsgTx: assert arg(0) == 2
+//@   site call SecondLevelHtlcScript: assert arg(chanType) == chanType && arg(initiator) == initiator && arg(revocationKey) == revocationKey &&
+//@        arg(delayKey) == delayKey && arg(csvDelay) == csvDelay && arg(leaseExpiry) == leaseExpiry
+//@   ensures result1 == nil ==> result0 == ret(NewMsgTx)
+//@
+//@ func CreateHtlcSuccessTx
+//@   props C05
+//@   site store TxIn.Sequence: assert value == ret(HtlcSecondLevelInputSequence)
+//@   site store TxIn.PreviousOutPoint: assert value.Hash == htlcOutput.Hash && value.Index == htlcOutput.Index
+//@   site store TxOut.Value: assert value == htlcAmt
+//@   site store TxOut.PkScript: assert value == ret(PkScript) && retn(SecondLevelHtlcScript, 1) == nil
+//@   site call HtlcSecondLevelInputSequence: assert arg(chanType) == chanType
+//@   site call NewMsgTx: assert arg(0) == 2
+//@   site call SecondLevelHtlcScript: assert arg(chanType) == chanType && arg(initiator) == initiator && arg(revocationKey) == revocationKey &&
+//@        arg(delayKey) == delayKey && arg(csvDelay) == csvDelay && arg(leaseExpiry) == leaseExpiry
+//@   ensures result1 == nil ==> result0 == ret(NewMsgTx)
+//@
+//@ func HtlcSecondLevelInputSequence
+//@   props C05
+//@   ensures result == ite(chanType.HasAnchors(), 1, 0)
+//@   modifies nothing
+//@
+//@ func newOutgoingHtlcResolution
+//@   props C05
+//@   loop * havoc
+//@   site call genHtlcScript: assert arg(chanType) == chanType && !arg(isIncoming) && arg(whoseCommit) == whoseCommit &&
+//@        arg(timeout) == htlc.RefundTimeout && arg(rHash) == htlc.RHash && arg(keyRing) == keyRing
+//@   site call WitnessScriptForPath nth 0: assert arg(1) == input.ScriptPathTimeout && retn(genHtlcScript, 1) == nil
+//@   site call HtlcTimeoutFee: assert arg(chanType) == chanType && arg(feePerKw) == feePerKw
+//@   site call HtlcTimeoutFee as fee-domain: domain 0 <= feePerKw && feePerKw <= 1<<40
+//@   site call CreateHtlcTimeoutTx: assert !whoseCommit.IsRemote() && arg(chanType) == chanType && arg(initiator) == isCommitFromInitiator &&
+//@        arg(htlcOutput).Index == wrap(htlc.OutputIndex, 32) && arg(htlcOutput).Hash == ret(TxHash, 0) &&
+//@        arg(htlcAmt) == fdiv(htlc.Amt, 1000) - ret(HtlcTimeoutFee) &&
+//@        arg(cltvExpiry) == htlc.RefundTimeout && arg(csvDelay) == csvDelay && arg(leaseExpiry) == leaseExpiry &&
+//@        arg(revocationKey) == keyRing.RevocationKey && arg(delayKey) == keyRing.ToLocalKey
+//@   site call SenderHtlcSpendTimeout: assert arg(receiverSig) == retn(ParseSignature, 0) && retn(ParseSignature, 1) == nil &&
+//@        arg(receiverSigHash) == ret(HtlcSigHashType) && arg(signer) == signer && arg(htlcTimeoutTx) == retn(CreateHtlcTimeoutTx, 0) &&
+//@        arg(signDesc).KeyDesc.PubKey == localChanCfg.HtlcBasePoint.PubKey && arg(signDesc).SingleTweak == keyRing.LocalHtlcKeyTweak &&
+//@        arg(signDesc).WitnessScript == retn(WitnessScriptForPath, 0, 0) && arg(signDesc).HashType == ret(sweepSigHash, 1) &&
+//@        arg(signDesc).InputIndex == 0 && arg(signDesc).Output == commitTx.TxOut[htlc.OutputIndex]
+//@   site call sweepSigHash: assert arg(chanType) == chanType
+//@   site call ParseSignature: assert arg(0) == htlc.Signature
+//@   site call HtlcSigHashType: assert arg(chanType) == chanType
+//@   site call SecondLevelHtlcScript: assert arg(chanType) == chanType && arg(initiator) == isCommitFromInitiator &&
+//@        arg(revocationKey) == keyRing.RevocationKey && arg(delayKey) == keyRing.ToLocalKey && arg(csvDelay) == csvDelay && arg(leaseExpiry) == leaseExpiry
+//@   site call TaprootSecondLevelScriptTree: assert arg(0) == keyRing.RevocationKey && arg(1) == keyRing.ToLocalKey && arg(2) == csvDelay
+//@   site call SingleTweakBytes: assert arg(commitPoint) == keyRing.CommitPoint && arg(basePoint) == localChanCfg.DelayBasePoint.PubKey
+//@   site call HtlcSignDetails: assert arg(chanType) == chanType && arg(sigHash) == ret(HtlcSigHashType) && arg(peerSig) == retn(ParseSignature, 0)
+//@   site store OutgoingHtlcResolution.Expiry: assert value == htlc.RefundTimeout
+//@   site store OutgoingHtlcResolution.CsvDelay nth 0: assert whoseCommit.IsRemote() && value == ret(HtlcSecondLevelInputSequence)
+//@   site store OutgoingHtlcResolution.CsvDelay nth 1: assert !whoseCommit.IsRemote() && value == csvDelay
+//@   site store OutgoingHtlcResolution.CsvDelay nth 2: assert !whoseCommit.IsRemote() && value == csvDelay
+//@   site store OutgoingHtlcResolution.SignedTimeoutTx: assert value == retn(CreateHtlcTimeoutTx, 0) && retn(CreateHtlcTimeoutTx, 1) == nil
+//@   site store OutgoingHtlcResolution.SweepSignDesc nth 0: assert whoseCommit.IsRemote() &&
+//@        value.KeyDesc.PubKey == localChanCfg.HtlcBasePoint.PubKey && value.SingleTweak == keyRing.LocalHtlcKeyTweak &&
+//@        value.WitnessScript == retn(WitnessScriptForPath, 0, 0) && value.HashType == ret(sweepSigHash, 0) &&
+//@        value.Output.Value == fdiv(htlc.Amt, 1000) && value.Output.PkScript == ret(PkScript, 0)
+//@   site store OutgoingHtlcResolution.SweepSignDesc nth 1: assert !whoseCommit.IsRemote() &&
+//@        value.KeyDesc.PubKey == localChanCfg.DelayBasePoint.PubKey && value.SingleTweak == ret(SingleTweakBytes) &&
+//@        value.WitnessScript == retn(WitnessScriptForPath, 0, 1) && value.HashType == ret(sweepSigHash, 2) &&
+//@        value.Output.Value == fdiv(htlc.Amt, 1000) - ret(HtlcTimeoutFee)
+//@   site store OutgoingHtlcResolution.ClaimOutpoint nth 0: assert value.Hash == ret(TxHash, 0) && value.Index == wrap(htlc.OutputIndex, 32)
+//@   site store OutPoint.Hash nth 1: assert value == ret(TxHash, 1)
+//@   site store OutPoint.Hash nth 2: assert value == ret(TxHash, 2)
+//@   site store OutPoint.Index nth 1: assert value == 0
+//@   site store OutPoint.Index nth 2: assert value == 0
+//@   site call TxHash nth 0: assert arg(0) == commitTx
+//@   site call TxHash nth 1: assert arg(0) == retn(CreateHtlcTimeoutTx, 0)
+//@   site call TxHash nth 2: assert arg(0) == retn(CreateHtlcTimeoutTx, 0)
+//@   site call HtlcSecondLevelInputSequence: assert arg(chanType) == chanType
+//@
+//@ func newIncomingHtlcResolution
+//@   props C05
+//@   loop * havoc
+//@   site call genHtlcScript: assert arg(chanType) == chanType && arg(isIncoming) && arg(whoseCommit) == whoseCommit &&
+//@        arg(timeout) == htlc.RefundTimeout && arg(rHash) == htlc.RHash && arg(keyRing) == keyRing
+//@   site call WitnessScriptForPath nth 0: assert arg(1) == input.ScriptPathSuccess && retn(genHtlcScript, 1) == nil
+//@   site call HtlcSuccessFee: assert arg(chanType) == chanType && arg(feePerKw) == feePerKw
+//@   site call HtlcSuccessFee as fee-domain: domain 0 <= feePerKw && feePerKw <= 1<<40
+//@   site call CreateHtlcSuccessTx: assert !whoseCommit.IsRemote() && arg(chanType) == chanType && arg(initiator) == isCommitFromInitiator &&
+//@        arg(htlcOutput).Index == wrap(htlc.OutputIndex, 32) && arg(htlcOutput).Hash == ret(TxHash, 0) &&
+//@        arg(htlcAmt) == fdiv(htlc.Amt, 1000) - ret(HtlcSuccessFee) &&
+//@        arg(csvDelay) == csvDelay && arg(leaseExpiry) == leaseExpiry &&
+//@        arg(revocationKey) == keyRing.RevocationKey && arg(delayKey) == keyRing.ToLocalKey
+//@   site call ReceiverHtlcSpendRedeem: assert arg(senderSig) == retn(ParseSignature, 0) && retn(ParseSignature, 1) == nil &&
+//@        arg(senderSigHash) == ret(HtlcSigHashType) && arg(signer) == signer && arg(htlcSuccessTx) == retn(CreateHtlcSuccessTx, 0) &&
+//@        len(arg(paymentPreimage)) == 0 &&
+//@        arg(signDesc).KeyDesc.PubKey == localChanCfg.HtlcBasePoint.PubKey && arg(signDesc).SingleTweak == keyRing.LocalHtlcKeyTweak &&
+//@        arg(signDesc).WitnessScript == retn(WitnessScriptForPath, 0, 0) && arg(signDesc).HashType == ret(sweepSigHash, 1) &&
+//@        arg(signDesc).InputIndex == 0 && arg(signDesc).Output == commitTx.TxOut[htlc.OutputIndex]
+//@   site call sweepSigHash: assert arg(chanType) == chanType
+//@   site call ParseSignature: assert arg(0) == htlc.Signature
+//@   site call HtlcSigHashType: assert arg(chanType) == chanType
+//@   site call SecondLevelHtlcScript: assert arg(chanType) == chanType && arg(initiator) == isCommitFromInitiator &&
+//@        arg(revocationKey) == keyRing.RevocationKey && arg(delayKey) == keyRing.ToLocalKey && arg(csvDelay) == csvDelay && arg(leaseExpiry) == leaseExpiry
+//@   site call TaprootSecondLevelScriptTree: assert arg(0) == keyRing.RevocationKey && arg(1) == keyRing.ToLocalKey && arg(2) == csvDelay
+//@   site call SingleTweakBytes: assert arg(commitPoint) == keyRing.CommitPoint && arg(basePoint) == localChanCfg.DelayBasePoint.PubKey
+//@   site call HtlcSignDetails: assert arg(chanType) == chanType && arg(sigHash) == ret(HtlcSigHashType) && arg(peerSig) == retn(ParseSignature, 0)
+//@   site store IncomingHtlcResolution.CsvDelay nth 0: assert whoseCommit.IsRemote() && value == ret(HtlcSecondLevelInputSequence)
+//@   site store IncomingHtlcResolution.CsvDelay nth 1: assert !whoseCommit.IsRemote() && value == csvDelay
+//@   site store IncomingHtlcResolution.CsvDelay nth 2: assert !whoseCommit.IsRemote() && value == csvDelay
+//@   site store IncomingHtlcResolution.SignedSuccessTx: assert value == retn(CreateHtlcSuccessTx, 0) && retn(CreateHtlcSuccessTx, 1) == nil
+//@   site store IncomingHtlcResolution.SweepSignDesc nth 0: assert whoseCommit.IsRemote() &&
+//@        value.KeyDesc.PubKey == localChanCfg.HtlcBasePoint.PubKey && value.SingleTweak == keyRing.LocalHtlcKeyTweak &&
+//@        value.WitnessScript == retn(WitnessScriptForPath, 0, 0) && value.HashType == ret(sweepSigHash, 0) &&
+//@        value.Output.Value == fdiv(htlc.Amt, 1000) && value.Output.PkScript == ret(PkScript, 0)
+//@   site store IncomingHtlcResolution.SweepSignDesc nth 1: assert !whoseCommit.IsRemote() &&
+//@        value.KeyDesc.PubKey == localChanCfg.DelayBasePoint.PubKey && value.SingleTweak == ret(SingleTweakBytes) &&
+//@        value.WitnessScript == retn(WitnessScriptForPath, 0, 1) && value.HashType == ret(sweepSigHash, 2) &&
+//@        value.Output.Value == fdiv(htlc.Amt, 1000) - ret(HtlcSuccessFee)
+//@   site store IncomingHtlcResolution.ClaimOutpoint nth 0: assert value.Hash == ret(TxHash, 0) && value.Index == wrap(htlc.OutputIndex, 32)
+//@   site store OutPoint.Hash nth 1: assert value == ret(TxHash, 1)
+//@   site store OutPoint.Hash nth 2: assert value == ret(TxHash, 2)
+//@   site store OutPoint.Index nth 1: assert value == 0
+//@   site store OutPoint.Index nth 2: assert value == 0
+//@   site call TxHash nth 0: assert arg(0) == commitTx
+//@   site call TxHash nth 1: assert arg(0) == retn(CreateHtlcSuccessTx, 0)
+//@   site call TxHash nth 2: assert arg(0) == retn(CreateHtlcSuccessTx, 0)
+//@   site call HtlcSecondLevelInputSequence: assert arg(chanType) == chanType
+//@
+//@ func extractHtlcResolutions
+//@   props C05
+//@   loop * havoc
+//@   site call HtlcIsDust as dust-domain: domain 0 <= feePerKw && feePerKw <= 1<<40
+//@   site call HtlcIsDust: assert arg(chanType) == chanType && arg(incoming) == htlc.Incoming && arg(whoseCommit) == whoseCommit &&
+//@        arg(feePerKw) == feePerKw && arg(htlcAmt) == fdiv(htlc.Amt, 1000) &&
+//@        arg(dustLimit) == ite(whoseCommit.IsLocal(), localChanCfg.DustLimit, remoteChanCfg.DustLimit)
+//@   site call newIncomingHtlcResolution: assert htlc.Incoming && !ret(HtlcIsDust) && arg(htlc) == addr(htlc) &&
+//@        arg(csvDelay) == wrap(ite(whoseCommit.IsLocal(), localChanCfg.CsvDelay, remoteChanCfg.CsvDelay), 32) &&
+//@        arg(whoseCommit) == whoseCommit && arg(keyRing) == keyRing && arg(commitTx) == commitTx && arg(feePerKw) == feePerKw &&
+//@        arg(leaseExpiry) == leaseExpiry && arg(isCommitFromInitiator) == isCommitFromInitiator && arg(chanType) == chanType &&
+//@        arg(localChanCfg) == localChanCfg && arg(signer) == signer && arg(commitTxHeight) == commitTxHeight
+//@   site call newOutgoingHtlcResolution: assert !htlc.Incoming && !ret(HtlcIsDust) && arg(htlc) == addr(htlc) &&
+//@        arg(csvDelay) == wrap(ite(whoseCommit.IsLocal(), localChanCfg.CsvDelay, remoteChanCfg.CsvDelay), 32) &&
+//@        arg(whoseCommit) == whoseCommit && arg(keyRing) == keyRing && arg(commitTx) == commitTx && arg(feePerKw) == feePerKw &&
+//@        arg(leaseExpiry) == leaseExpiry && arg(isCommitFromInitiator) == isCommitFromInitiator && arg(chanType) == chanType &&
+//@        arg(localChanCfg) == localChanCfg && arg(signer) == signer && arg(commitTxHeight) == commitTxHeight
+//@   // every HTLC that is not dust on this commitment gets exactly one resolution of its own direction
+//@   loop 0 step called(HtlcIsDust) &&
+//@        (ret(HtlcIsDust) ==> len(incomingResolutions) == prev(len(incomingResolutions)) && len(outgoingResolutions) == prev(len(outgoingResolutions))) &&
+//@        (!ret(HtlcIsDust) ==> len(incomingResolutions) + len(outgoingResolutions) == prev(len(incomingResolutions)) + prev(len(outgoingResolutions)) + 1)
+//@   site store HtlcResolutions.IncomingHTLCs: assert value == incomingResolutions
+//@   site store HtlcResolutions.OutgoingHTLCs: assert value == outgoingResolutions
+//@
+//@ func NewLocalForceCloseSummary
+//@   props C05
+//@   loop * havoc
+//@   site call AtIndex: assert arg(1) == stateNum && csvTimeout == wrap(chanState.LocalChanCfg.CsvDelay, 32)
+//@   site call ComputeCommitmentPoint: assert arg(0) == sliceof(*revocation) && retn(AtIndex, 1) == nil && revocation == retn(AtIndex, 0)
+//@   site call DeriveCommitmentKeys: assert arg(commitPoint) == ret(ComputeCommitmentPoint) && arg(whoseCommit) == lntypes.Local &&
+//@        arg(chanType) == chanState.ChanType && arg(localChanCfg) == addr(chanState.LocalChanCfg) && arg(remoteChanCfg) == addr(chanState.RemoteChanCfg)
+//@   site call CommitScriptToSelf: assert arg(chanType) == chanState.ChanType && arg(initiator) == chanState.IsInitiator &&
+//@        arg(selfKey) == ret(DeriveCommitmentKeys).ToLocalKey && arg(revokeKey) == ret(DeriveCommitmentKeys).RevocationKey &&
+//@        arg(csvDelay) == csvTimeout && arg(leaseExpiry) == leaseExpiry
+//@   site call FlatMapOption: assert leaseExpiry == ite(chanState.ChanType.HasLeaseExpiration(), chanState.ThawHeight, 0)
+//@   site call WitnessScriptForPath: assert arg(1) == input.ScriptPathDelay
+//@   site store CommitOutputResolution.MaturityDelay: assert value == csvTimeout
+//@   site store SignDescriptor.KeyDesc: assert value.PubKey == chanState.LocalChanCfg.DelayBasePoint.PubKey
+//@   site store SignDescriptor.SingleTweak: assert value == ret(DeriveCommitmentKeys).LocalCommitKeyTweak
+//@   site store SignDescriptor.WitnessScript: assert value == retn(WitnessScriptForPath, 0) && retn(WitnessScriptForPath, 1) == nil
+//@   site store SignDescriptor.HashType: assert value == ret(sweepSigHash)
+//@   site store TxOut.Value: assert value == delayOut.Value
+//@   site store TxOut.PkScript: assert value == delayOut.PkScript
+//@   site call sweepSigHash: assert arg(chanType) == chanState.ChanType
+//@   site store OutPoint.Hash nth 0: assert value == ret(TxHash, 0)
+//@   site store OutPoint.Index nth 0: assert value == delayIndex
+//@   site call TxHash nth 0: assert arg(0) == commitTx
+//@   site call extractHtlcResolutions: assert arg(feePerKw) == chanState.LocalCommitment.FeePerKw && arg(whoseCommit) == lntypes.Local &&
+//@        arg(signer) == signer && arg(htlcs) == chanState.LocalCommitment.Htlcs && arg(keyRing) == ret(DeriveCommitmentKeys) &&
+//@        arg(localChanCfg) == addr(chanState.LocalChanCfg) && arg(remoteChanCfg) == addr(chanState.RemoteChanCfg) &&
+//@        arg(commitTx) == commitTx && arg(commitTxHeight) == commitTxHeight && arg(chanType) == chanState.ChanType &&
+//@        arg(isCommitFromInitiator) == chanState.IsInitiator &&
+//@        arg(leaseExpiry) == leaseExpiry && arg(chanState) == chanState
+//@   site call NewAnchorResolution: assert arg(chanState) == chanState && arg(commitTx) == commitTx && arg(keyRing) == ret(DeriveCommitmentKeys) &&
+//@        arg(whoseCommit) == lntypes.Local
+//@   site store LocalForceCloseSummary.CloseTx: assert value == commitTx && retn(extractHtlcResolutions, 1) == nil && retn(NewAnchorResolution, 1) == nil
+//@
+//@ func NewUnilateralCloseSummary
+//@   props C05
+//@   loop * havoc
+//@   site call DeriveCommitmentKeys: assert arg(commitPoint) == commitPoint && arg(whoseCommit) == lntypes.Remote &&
+//@        arg(chanType) == chanState.ChanType && arg(localChanCfg) == addr(chanState.LocalChanCfg) && arg(remoteChanCfg) == addr(chanState.RemoteChanCfg)
+//@   site call extractHtlcResolutions: assert arg(feePerKw) == remoteCommit.FeePerKw && arg(whoseCommit) == lntypes.Remote &&
+//@        arg(signer) == signer && arg(htlcs) == remoteCommit.Htlcs && arg(keyRing) == ret(DeriveCommitmentKeys) &&
+//@        arg(localChanCfg) == addr(chanState.LocalChanCfg) && arg(remoteChanCfg) == addr(chanState.RemoteChanCfg) &&
+//@        arg(commitTx) == commitSpend.SpendingTx && arg(commitTxHeight) == wrap(commitSpend.SpendingHeight, 32) &&
+//@        arg(chanType) == chanState.ChanType && arg(isCommitFromInitiator) == isRemoteInitiator && isRemoteInitiator == !chanState.IsInitiator &&
+//@        arg(leaseExpiry) == ite(chanState.ChanType.HasLeaseExpiration(), chanState.ThawHeight, 0) && arg(chanState) == chanState
+//@   site call CommitScriptToRemote: assert arg(chanType) == chanState.ChanType && arg(initiator) == isRemoteInitiator &&
+//@        arg(remoteKey) == ret(DeriveCommitmentKeys).ToRemoteKey && arg(leaseExpiry) == leaseExpiry && retn(extractHtlcResolutions, 1) == nil
+//@   site call WitnessScriptForPath: assert arg(1) == input.ScriptPathSuccess
+//@   site store CommitOutputResolution.MaturityDelay: assert value == retn(CommitScriptToRemote, 1) && retn(CommitScriptToRemote, 2) == nil
+//@   site store SignDescriptor.KeyDesc: assert value.PubKey == chanState.LocalChanCfg.PaymentBasePoint.PubKey
+//@   site store SignDescriptor.SingleTweak: assert value == ret(DeriveCommitmentKeys).LocalCommitKeyTweak
+//@   site store SignDescriptor.WitnessScript: assert value == retn(WitnessScriptForPath, 0) && retn(WitnessScriptForPath, 1) == nil
+//@   site store SignDescriptor.HashType: assert value == ret(sweepSigHash)
+//@   site store TxOut.Value: assert value == localBalance
+//@   site call sweepSigHash: assert arg(chanType) == chanState.ChanType
+//@   site call NewAnchorResolution: assert arg(chanState) == chanState && arg(commitTx) == commitSpend.SpendingTx && arg(keyRing) == ret(DeriveCommitmentKeys) &&
+//@        arg(whoseCommit) == lntypes.Remote
+//@   site store UnilateralCloseSummary.HtlcResolutions: assert value == retn(extractHtlcResolutions, 0) && retn(NewAnchorResolution, 1) == nil
+//@   site store UnilateralCloseSummary.CommitResolution: assert value == commitResolution
+//@   site store OutPoint.Index nth 0: assert value == wrap(outputIndex, 32)
+//@
+//@ func NewAnchorResolution
+//@   props C05
+//@   loop * havoc
+//@   site call CommitScriptAnchors: assert arg(0) == chanState.ChanType && arg(1) == addr(chanState.LocalChanCfg) &&
+//@        arg(2) == addr(chanState.RemoteChanCfg) && arg(3) == keyRing
+//@   site call FindScriptOutputIndex: assert arg(0) == commitTx && retn(CommitScriptAnchors, 2) == nil
+//@   site call WitnessScriptForPath: assert arg(1) == input.ScriptPathSuccess && retn(FindScriptOutputIndex, 0)
+//@   site store OutPoint.Index: assert value == retn(FindScriptOutputIndex, 1)
+//@   site store OutPoint.Hash: assert value == ret(TxHash)
+//@   site call TxHash: assert arg(0) == commitTx
+//@   site store TxOut.Value: assert value == 330
+//@   site store SignDescriptor.HashType: assert value == ret(sweepSigHash)
+//@   site store SignDescriptor.WitnessScript: assert value == retn(WitnessScriptForPath, 0) && retn(WitnessScriptForPath, 1) == nil
+//@   site store SignDescriptor.KeyDesc nth 0: assert value.PubKey == chanState.LocalChanCfg.MultiSigKey.PubKey
+//@   site store SignDescriptor.KeyDesc nth 1: assert whoseCommit.IsLocal() && value.PubKey == chanState.LocalChanCfg.DelayBasePoint.PubKey
+//@   site store SignDescriptor.KeyDesc nth 2: assert !whoseCommit.IsLocal() && value.PubKey == chanState.LocalChanCfg.PaymentBasePoint.PubKey
+//@   site store SignDescriptor.SingleTweak: assert whoseCommit.IsLocal() && value == keyRing.LocalCommitKeyTweak
+//@   ensures !old(chanState.ChanType).HasAnchors() ==> result0 == nil && result1 == nil
+//@
+//@ func (lc *LightningChannel) getSignedCommitTx
+//@   props C05
+//@   site call GetSignedCommitTx: assert arg(inputs).CommitTx == lc.channelState.LocalCommitment.CommitTx &&
+//@        arg(inputs).CommitSig == lc.channelState.LocalCommitment.CommitSig &&
+//@        arg(inputs).OurKey.PubKey == lc.channelState.LocalChanCfg.MultiSigKey.PubKey &&
+//@        arg(inputs).TheirKey.PubKey == lc.channelState.RemoteChanCfg.MultiSigKey.PubKey &&
+//@        arg(inputs).SignDesc == lc.signDesc && arg(signer) == lc.Signer
+//@
+//@ func GetSignedCommitTx
+//@   props C05
+//@   loop * havoc
+//@   site call Copy: assert arg(0) == inputs.CommitTx
+//@   site call ParseDERSignature: assert arg(0) == inputs.CommitSig
+//@   site call SignOutputRaw: assert arg(1) == ret(Copy) && arg(2) == inputs.SignDesc && arg(0) == signer && retn(ParseDERSignature, 1) == nil
+//@   site call SpendMultiSig: assert arg(0) == inputs.SignDesc.WitnessScript && arg(2) == retn(SignOutputRaw, 0) && retn(SignOutputRaw, 1) == nil &&
+//@        arg(4) == retn(ParseDERSignature, 0) && arg(1) == ret(SerializeCompressed, 0) && arg(3) == ret(SerializeCompressed, 1)
+//@   site call SerializeCompressed nth 0: assert arg(0) == *inputs.OurKey.PubKey
+//@   site call SerializeCompressed nth 1: assert arg(0) == *inputs.TheirKey.PubKey
+//@   site call NewPartialMusigSession: assert arg(1).PubKey == inputs.OurKey.PubKey && arg(2).PubKey == inputs.TheirKey.PubKey && arg(3) == signer
+//@   site call SignCommit: assert arg(1) == ret(Copy)
+//@   ensures result1 == nil ==> result0 == ret(Copy)
+//@
+//@ func (lc *LightningChannel) ForceClose
+//@   props C05
+//@   loop * havoc
+//@   site call NewLocalForceCloseSummary: assert arg(chanState) == lc.channelState && arg(signer) == lc.Signer &&
+//@        arg(commitTx) == retn(getSignedCommitTx, 0) && retn(getSignedCommitTx, 1) == nil &&
+//@        arg(stateNum) == lc.channelState.LocalCommitment.CommitHeight
+//@   site store LocalForceCloseSummary.CloseTx: assert value == retn(getSignedCommitTx, 0) && retn(getSignedCommitTx, 1) == nil
+//@   site store LightningChannel.isClosed: assert value && retn(NewLocalForceCloseSummary, 1) == nil
